@@ -110,6 +110,10 @@ type world struct {
 	// reconcile ("" = nothing), see interpose.
 	third        []string
 	thirdDeleted map[string]bool
+	// wrote: the current revision reconcile has issued a write already;
+	// deactivatedMidway: the package manager deactivated the revision being
+	// reconciled after the reconciler had read it (see interpose).
+	wrote, deactivatedMidway, readSelf bool
 }
 
 // interpose lets a third party act between two API calls of a revision
@@ -117,6 +121,26 @@ type world struct {
 // a call that addresses one of the package's objects, that object is deleted
 // (if it exists) or created under another owner's control (if it does not).
 func (w *world) interpose(c simkube.Call) simkube.Outcome {
+	// The package manager deactivates the revision that is being reconciled,
+	// after the reconciler has read it and before its first write: that write
+	// carries the resourceVersion it read and has to be refused.
+	if w.inj.Armed && c.Client == "rev" && len(w.third) == 0 && !w.wrote && !w.deactivatedMidway && w.curAct && w.readSelf {
+		if w.r.Choose(2, "manager-deactivates-revision-before:"+c.String()) == 1 {
+			k := simkube.ObjKey{Group: revGK.Group, Kind: revGK.Kind, Name: w.cur}
+			w.s.Mutate(k, func(u *unstructured.Unstructured) {
+				_ = unstructured.SetNestedField(u.Object, string(v1.PackageRevisionInactive), "spec", "desiredState")
+			})
+			w.deactivatedMidway = true
+			w.third = append(w.third, fmt.Sprintf("before %s the package manager deactivates %s", c, w.cur))
+			w.r.Logf("MANAGER deactivates %s before %s", w.cur, c)
+		}
+	}
+	if c.Client == "rev" && c.Write && !c.DryRun {
+		defer func() { w.wrote = true }()
+	}
+	if c.Client == "rev" && c.Verb == "get" && c.Key.GK() == revGK && c.Key.Name == w.cur {
+		defer func() { w.readSelf = true }()
+	}
 	if w.inj.Armed && c.Client == "rev" && c.Key.GK() == crdGK && len(w.third) == 0 && c.Key.Name != crdName("KW") && c.Key.Name != crdName("KF") {
 		exists := w.s.Peek(c.Key) != nil
 		what := "creates it under its own control"
@@ -191,6 +215,10 @@ func (w *world) onWrite(rec *simkube.WriteRecord) {
 	// E2a: only an active revision creates objects.
 	if rec.Before == nil && rec.After != nil && !w.curAct {
 		w.r.FailLater("E2/inactive-created", "inactive revision %s created %s", w.cur, rec.Call.Key.Name)
+	}
+	_, _, curUID := w.revisionState(w.cur)
+	if rec.After != nil && w.deactivatedMidway && (rec.Before == nil || (controllerUID(rec.After) == curUID && controllerUID(rec.Before) != curUID)) {
+		w.r.FailLater("E2/created-or-took-control-from-stale-active-snapshot", "revision %s, which the package manager deactivated after the reconciler had read it and before its first write, performed %s (created the object or became its controller)", w.cur, rec.Call)
 	}
 	// E2b: only an active revision becomes controller.
 	if rec.After != nil {
@@ -367,6 +395,7 @@ func body(r *explore.Run, rep *report.R, sc string, variant string, depth int) {
 	reconcileRev := func(name string) xrh.Outcome {
 		_, act, _ := w.revisionState(name)
 		w.cur, w.curAct = name, act
+		w.wrote, w.deactivatedMidway, w.readSelf = false, false, false
 		return xrh.Reconcile(rr.r, types.NamespacedName{Name: name})
 	}
 	s.OnWrite = append(s.OnWrite, w.onWrite)
@@ -463,7 +492,10 @@ func body(r *explore.Run, rep *report.R, sc string, variant string, depth int) {
 					healthy = true
 				}
 			}
-			completed := out.Err == nil && len(faults) == 0 && healthy && !out.Result.Requeue
+			// A reconcile that reports completion (no error, no requeue, Healthy)
+			// is held to E3 / E4 also when a call inside it was answered with an
+			// injected fault: nothing will retry it.
+			completed := out.Err == nil && healthy && !out.Result.Requeue
 			// An object a third party deleted in the middle of this reconcile is
 			// legitimately missing afterwards, and a failure to find it is not
 			// one of the reasons the property speaks about.
@@ -569,7 +601,7 @@ func describeCRD(c *unstructured.Unstructured) string {
 func TestCheck(t *testing.T) {
 	rep := report.New("C16", "fault_enumeration")
 	rep.Meta(
-		"Executions are event sequences of bounded depth, starting from package p with revision A (objects X,Y) established, over {package-manager reconcile, revision-A reconcile, revision-B reconcile, source edit to v2 / v1, garbage collector run, deletion of inactive revisions}; every API call (reads included) of a revision reconcile is a fault point {error-before, conflict, error-after}; instead of a fault, a third party may act once just before a call that addresses a package object (it deletes the object, or creates it under another owner's control if it does not exist); <= 1 deviation per sequence. Image B variants: plain upgrade {X',Z}; + W controlled by a revision of another package q; + an object the API server rejects; + F controlled by a foreign owner; + U pre-existing and uncontrolled. DFS with state-hash pruning ranked by remaining depth. Non-trivial: sequences that reconcile revision B or inject a fault.",
+		"Executions are event sequences of bounded depth, starting from package p with revision A (objects X,Y) established, over {package-manager reconcile, revision-A reconcile, revision-B reconcile, source edit to v2 / v1, garbage collector run, deletion of inactive revisions}; every API call (reads included) of a revision reconcile is a fault point {error-before, conflict, error-after}; instead of a fault, a third party may act once just before a call that addresses a package object (it deletes the object, or creates it under another owner's control if it does not exist), or the package manager may deactivate the revision after the reconciler has read it and before its first write; <= 1 deviation per sequence. Image B variants: plain upgrade {X',Z}; + W controlled by a revision of another package q; + an object the API server rejects; + F controlled by a foreign owner; + U pre-existing and uncontrolled. DFS with state-hash pruning ranked by remaining depth. Non-trivial: sequences that reconcile revision B or inject a fault.",
 		[]string{"simkube models the API server incl. dry-run and an admission predicate that answers identically for dry-run and real writes", "establisher concurrency 1 (its workers run one at a time); crash outcomes are not injected because the establisher issues calls from worker goroutines", "the Kubernetes garbage collector is modelled as 'delete objects all of whose owners are gone', run to a fixpoint as one event"},
 		[]string{"simkube", "go-containerregistry (real image construction)", "afero in-memory filesystem for the package cache"},
 	)
